@@ -24,6 +24,7 @@ type Opts struct {
 	NoDescriptions    bool
 	NoModuleNamespace bool // do not print module / namespace / submodule of nodes
 	MaskXPathNS       bool // do not print the default namespace recorded with when / must expressions
+	XPathListing      bool // print the compiled machine of every when / must (namespace of every name test), unless the node's namespace is masked
 	// Prune, when set, skips a node (and its subtree) for which it returns false.
 	Prune func(n schema.Node) bool
 }
@@ -276,6 +277,8 @@ func (d *dumper) node(depth int, path string, n schema.Node) {
 		ns := w.Namespace
 		if nsMasked {
 			ns = "(masked)"
+		} else if d.o.XPathListing && w.Mach != nil {
+			expr += " => " + w.Mach.PrintMachine()
 		}
 		if d.o.MaskRunAsParent {
 			d.line(depth+1, "when %q ns=%q", expr, ns)
@@ -291,6 +294,8 @@ func (d *dumper) node(depth int, path string, n schema.Node) {
 		ns := m.Namespace
 		if nsMasked {
 			ns = "(masked)"
+		} else if d.o.XPathListing && m.Mach != nil {
+			expr += " => " + m.Mach.PrintMachine()
 		}
 		d.line(depth+1, "must %q msg=%q apptag=%q ns=%q", expr, m.ErrMsg, m.AppTag, ns)
 	}
